@@ -41,20 +41,21 @@ Plans == {P \in UNION {Dags(n, MaxParents) : n \in MinRevs..MaxRevs} :
             /\ (NewRoots \/ Cardinality(Roots(P)) = 1)}
 
 VARIABLES plan,   \* the revision graph to be built
+          lim,    \* edits per commit in this session (1..MaxEdits; sessions of careful and of sweeping committers)
           h,      \* the history committed so far
           wt,     \* working tree of the revision being prepared
           nobj,   \* next fresh object identity
           nedit,  \* edits since the last commit
           done
-vars == <<plan, h, wt, nobj, nedit, done>>
+vars == <<plan, lim, h, wt, nobj, nedit, done>>
 
-Init == /\ plan \in Plans
+Init == /\ plan \in Plans /\ lim \in 1..MaxEdits
         /\ h = [P |-> <<>>, T |-> <<>>, M |-> <<>>, tags |-> {}, tip |-> 0]
         /\ wt = {} /\ nobj = 1 /\ nedit = 0 /\ done = FALSE
 
 Building == ~done /\ NRevs(h) < Len(plan)
-CanEdit == Building /\ nedit < MaxEdits
-Edit(t2) == GenTree(t2) /\ t2 # wt /\ wt' = t2 /\ nedit' = nedit + 1 /\ UNCHANGED <<plan, h, done>>
+CanEdit == Building /\ nedit < lim
+Edit(t2) == GenTree(t2) /\ t2 # wt /\ wt' = t2 /\ nedit' = nedit + 1 /\ UNCHANGED <<plan, lim, h, done>>
 Fresh(p, k, c, x) == [p |-> p, k |-> k, c |-> c, x |-> x, o |-> nobj]
 
 Add(p, k, c, x) == /\ CanEdit /\ ~Has(wt, p) /\ IsDirAt(wt, ParentPath(p))
@@ -98,12 +99,12 @@ Commit(k, how) ==
        THEN /\ (Len(plan[r + 1]) <= 1 => how = "ours")              \* the choice only matters for a merge
             /\ GenTree(StartTree(T2, plan[r + 1], how)) /\ wt' = StartTree(T2, plan[r + 1], how)
        ELSE how = "ours" /\ wt' = wt
-    /\ nedit' = 0 /\ UNCHANGED <<plan, nobj, done>>
+    /\ nedit' = 0 /\ UNCHANGED <<plan, lim, nobj, done>>
 \* the session ends when the plan is complete; tags are placed on revisions of the branch
 Finish(tg) == /\ ~done /\ NRevs(h) = Len(plan)
               /\ \A n \in TagNames : tg[n] = 0 \/ tg[n] \in TipAncestry(h)
               /\ h' = BranchPart([h EXCEPT !.tags = {[name |-> n, rev |-> tg[n]] : n \in {n \in TagNames : tg[n] # 0}}])
-              /\ done' = TRUE /\ UNCHANGED <<plan, wt, nobj, nedit>>
+              /\ done' = TRUE /\ UNCHANGED <<plan, lim, wt, nobj, nedit>>
 
 Next == \/ \E p \in Paths, c \in 1..NContents, x \in BOOLEAN : AddFile(p, c, x)
         \/ \E p \in Paths, c \in 1..NContents : AddLink(p, c) \/ Modify(p, c)
@@ -123,7 +124,8 @@ DropEmptyDirsLaws == DropLaws(wt)
 \* the projection mentions neither revision numbers nor object identities
 ProjectionIdFree == done =>
     LET pr == Projection(h) IN
-    /\ \A f \in Perms(NRevs(h)) : ValidPerm(h, f) => Projection(Relabel(h, f)) = pr
+    /\ \A f \in (IF NRevs(h) <= 4 THEN Perms(NRevs(h)) ELSE Transpositions(NRevs(h))) :
+          ValidPerm(h, f) => Projection(Relabel(h, f)) = pr
     /\ Projection(RenameObjs(h, 7)) = pr
 
 \* some valid renumbering other than the identity when there is one (the channel is free to pick any)
@@ -160,7 +162,8 @@ LawsHoldOnSpec == done =>
        /\ \A o \in {nox, swp, tgm} : (FastFailed(h, o) = {}) <=> FastRoundTrip(h, o)
 
 \* anti-vacuity witnesses: TLC must reach these (checked as invariants that must be VIOLATED)
-WitnessEmptyDir == ~(done /\ SomeEmptyDir)
+WitnessEmptyDir == ~(done /\ SomeEmptyDir /\ SomeExec /\ h.tags # {})
+WitnessAsymMerge == ~(done /\ \E r \in RevsOf(h) : Len(h.P[r]) = 2 /\ h.T[h.P[r][1]] # h.T[h.P[r][2]])
 WitnessMergeRename == ~(done /\ \E r \in RevsOf(h) : Len(h.P[r]) = 2 /\ \E e \in h.T[r] : \E f \in h.T[h.P[r][1]] : e.o = f.o /\ e.p # f.p)
 WitnessKindChange == ~(done /\ \E r \in RevsOf(h) : h.P[r] # <<>> /\ \E e \in h.T[r] : \E f \in h.T[h.P[r][1]] : e.o = f.o /\ e.k # f.k)
 WitnessNestedEmpty == ~(done /\ \E r \in RevsOf(h) : \E e \in EmptyDirsOf(h.T[r]) : Len(e.p) = 2)
